@@ -31,7 +31,7 @@ def base_grids():
         vals = [e.n for e in CAT.for_version('3.0') if e.n[0] == kind]
         vals += {'uri': [('uri', '\\\\server\\share'), ('uri', 'http://h/a\\:b\\/c\\?d'), ('uri', 'a\\"b\\$c')], 'str': [], 'ref': [], 'bin': [], 'xstr': []}[kind]
         for i in range(0, len(vals), 12):
-            B.append(N.mkgrid('3.0', [], [('v', [])], [(v,) for v in vals[i:i + 12]]))
+            B.append(N.mkgrid('2.0' if kind == 'bin' else '3.0', [], [('v', [])], [(v,) for v in vals[i:i + 12]]))   # Bin is a 2.0 kind
     # the same nested grid / dict / list value in several cells (a pre-decoded input may share one object between them)
     inner = N.mkgrid('3.0', [('im', ('str', 'in'))], [('x', [])], [(ONE,), (N.NA,)])
     dd = N.mkdict([('k', ('list', (ONE, ('str', 'v')))), ('m', MK)])
